@@ -374,6 +374,10 @@ func Run(choose Chooser, cfg Config, bodies ...func()) Result {
 	return res
 }
 
+// Yield is an explicit scheduling point for harness threads (between two
+// operations that do not synchronise themselves).
+func Yield() { point(opStart, nil, 0) }
+
 // ---- Mutex
 
 // Mutex is a mutual exclusion lock with the API of sync.Mutex.
